@@ -58,6 +58,35 @@ pub fn run_obs(op: &str, step: &Value, regs: &Regs, ctx: &mut Ctx, keys: &crate:
             e.walk(hide, &visitor);
             Value::Array(out.into_inner())
         }
+        "obs_format" => {
+            let e = reg(regs, a(0))?;
+            let f1 = e.format();
+            let flat = e.format_flat();
+            let diag = e.diagnostic();
+            let diag_a = e.diagnostic_annotated();
+            let hexs = e.hex();
+            let ur = e.ur_string();
+            let tree = e.tree_format(false);
+            if f1 != e.format() || flat != e.format_flat() || tree != e.tree_format(false) {
+                return Err("formatting the same envelope twice gives different text".into());
+            }
+            if flat.contains('\n') {
+                return Err("format_flat contains a line break".into());
+            }
+            if hexs != hx(&e.tagged_cbor().to_cbor_data()) {
+                return Err("hex() is not the hex of the encoding".into());
+            }
+            let back = Envelope::from_ur_string(&ur).map_err(|x| format!("UR does not parse back: {}", x))?;
+            if !back.is_identical_to(e) {
+                return Err("UR round trip is not identical".into());
+            }
+            if diag.is_empty() || diag_a.is_empty() {
+                return Err("empty diagnostic notation".into());
+            }
+            // markers of obscured elements in the tree rendering (one line per element)
+            let count = |w: &str| tree.lines().filter(|l| l.trim_end().ends_with(w)).count();
+            json!({"elided": count("ELIDED"), "encrypted": count("ENCRYPTED"), "compressed": count("COMPRESSED"), "elements": tree.lines().count()})
+        }
         "obs_tree_format" => {
             let e = reg(regs, a(0))?;
             let hide = a(1).as_bool().ok_or("hide")?;
